@@ -18,7 +18,11 @@ PUNCT = list('()[]{}=,.:?@*/')
 LITS = ['0', '-1', '1.5', '1e3', '"s"', 'true', 'false', 'null', 'x1', '""', '18446744073709551616',
         '-0', '1.', '"a\\"b"', '"%Y %Y"', '"a{99999999999}"', '"(a"', '"%Q"']
 TYPES = ['String', 'Int32', 'UInt64', 'Float64', 'Boolean', 'Bytes', 'Timestamp', 'List', 'Map', 'Void']
-STRAY = ['\t', '\r', '$', '"', '\\', '\x00', 'é', ' ', '`', ';', '!', '~', '^', '&', '|', '<', '>', "'", '%']
+STRAY = ['\t', '\r', '$', '"', '\\', '\x00', 'é', ' ', '`', ';', '!', '~', '^', '&', '|', '<', '>', "'", '%',
+         # characters without a Unicode name (C1 controls, private use, noncharacters, unassigned) and
+         # other non-ASCII oddities: an error message must not depend on being able to describe them
+         '\x85', '\x9f', '\uf8ff', '\ue000', '\uffff', '\u0378', '\U0010ffff', '\u00a0', '\u201c', '\ufeff',
+         '\u0663', '\u200b']
 
 
 def tokenize(text):
